@@ -162,6 +162,14 @@ def cases():
     add("REGEXP_SUBSTR(s, p, 1, 1, 'e', g): group g", "regex_substr",
         mk(lambda o: substr(o, parameters=lit("e", True), group=op(o, "g", lit("2", False)))),
         lambda o, i: substr_expect(o, LITERAL("1", False), "0", IS(o["g"])), "the group argument selects the capture group")
+    for prm in ("i", "c", ""):
+        add(f"REGEXP_SUBSTR(s, p, 1, 1, '{prm}', g): an explicit group is extracted whatever the other parameters ('e' is implied)", "regex_substr",
+            mk(lambda o, prm=prm: substr(o, parameters=lit(prm, True), group=op(o, "g", lit("2", False)))),
+            lambda o, i: substr_expect(o, LITERAL("1", False), "0", IS(o["g"])),
+            "Snowflake: if a group number is given, sub-match extraction is allowed even without the 'e' parameter")
+    add("REGEXP_SUBSTR(s, p, 1, 1, 'e'): 'e' without a group extracts group 1", "regex_substr",
+        mk(lambda o: substr(o, parameters=lit("e", True))),
+        lambda o, i: substr_expect(o, LITERAL("1", False), "0", lambda v, path: None), "with 'e' and no group number the first group is extracted")
     def unescaped(v, path):
         """the literal's text is the original with Snowflake's doubled backslashes halved"""
         t = v.args.get("this") if isinstance(v, NodeV) and v.cls == "Literal" else None
